@@ -48,7 +48,13 @@ def _run_push(state, cmds, caps):
         for o in OBJ[k]:
             repo.object_store.add_object(o)
     for ref, v in state.items():
+        if ref == "_shadow":
+            continue
         if v is not None:
+            if v == "B" and state.get("_shadow"):
+                # loose B shadowing a stale packed A (the ref was packed, then updated)
+                repo.refs[ref] = SHA["A"]
+                repo.refs.pack_refs(all=True)
             repo.refs[ref] = SHA[v]
     lines = []
     for i, (old, new, ref) in enumerate(cmds):
@@ -105,6 +111,7 @@ def h_push(eng, ncmd=1, atomic=False, sideband=False):
     other refs are untouched; every ref names an object the server has; atomic pushes apply all or nothing"""
     vals = [None, "A", "B"]
     state = {R1: vals[eng.choice("s1", 3)], R2: vals[eng.choice("s2", 3)]}
+    shadow = bool(eng.choice("packed_history", 2))
     news = [None, "A", "B", "C", "D"]
     cmds = []
     for i, ref in enumerate([R1, R2][:ncmd]):
@@ -119,7 +126,7 @@ def h_push(eng, ncmd=1, atomic=False, sideband=False):
         caps.append(b"atomic")
     if sideband:
         caps.append(b"side-band-64k")
-    repo, status, unpack_ok = _run_push(state, cmds, caps)
+    repo, status, unpack_ok = _run_push(dict(state, _shadow=shadow), cmds, caps)
     try:
         _judge(eng, repo, status, unpack_ok, state, cmds, atomic, ncmd)
     finally:
@@ -169,7 +176,7 @@ def checks(tier):
                encoded=[s + "handle", s + "_apply_pack", s + "_report_status", "dulwich.client.ReportStatusParser",
                         "dulwich.refs.DiskRefsContainer.set_if_equals/remove_if_equals",
                         "dulwich.object_store.DiskObjectStore.add_thin_pack"],
-               bounds="server refs one/two each absent, A or B; 1 or 2 commands (old in {0,A,B}, new in {0,A,B, C sent in the pack, "
+               bounds="server refs one/two each absent, A or B (B optionally as a loose ref over a stale packed A); 1 or 2 commands (old in {0,A,B}, new in {0,A,B, C sent in the pack, "
                       "D not sent and not present}); capabilities report-status, delete-refs, optionally atomic and side-band-64k; "
                       "the real receive-pack handler over an in-memory pkt-line stream with a real pack; the report is decoded "
                       "with the client's own ReportStatusParser",
